@@ -373,9 +373,6 @@ type c12Archive struct {
 	msg    bool
 }
 
-	return out
-}
-
 func c12Mutations(r *rand.Rand, a *c12Archive, exhaustiveLimit int, nSample int) []c12Mut {
 	S := len(a.bytes)
 	H := a.bounds[0]
